@@ -255,6 +255,17 @@ def exSchema : Schema := { enums := [], msgs := [exRoot] }
 def exFaOpt : Field := { name := [97], json := [97], number := 1, kind := .int32, card := .single, presence := true, oneof := some 1000 }
 def exRootOpt : MsgDesc := { name := [77], fields := [exFaOpt, exFb] }
 def exSchemaOpt : Schema := { enums := [], msgs := [exRootOpt] }
+/-- message O { oneof o { S a = 1; int32 b = 2; } }, S { int32 x = 1; }  ('O'=79 'S'=83 'x'=120) -/
+def exSx : Field := { name := [120], json := [120], number := 1, kind := .int32, card := .single, presence := false, oneof := none }
+def exS : MsgDesc := { name := [83], fields := [exSx] }
+def exOa : Field := { name := [97], json := [97], number := 1, kind := .message [83], card := .single, presence := true, oneof := some 0 }
+def exOb : Field := { name := [98], json := [98], number := 2, kind := .int32, card := .single, presence := true, oneof := some 0 }
+def exO : MsgDesc := { name := [79], fields := [exOa, exOb] }
+def exSchemaO : Schema := { enums := [], msgs := [exO, exS] }
+/-- message J { int32 a_b = 1 [json_name = "aB"]; }  ('J'=74 '_'=95 'B'=66) -/
+def exJf : Field := { name := [97, 95, 98], json := [97, 66], number := 1, kind := .int32, card := .single, presence := false, oneof := none }
+def exJ : MsgDesc := { name := [74], fields := [exJf] }
+def exSchemaJ : Schema := { enums := [], msgs := [exJ] }
 /-- body {"a": 1, "b": "x"} decoded -/
 def exBodyAB : Dec := .ok [([[97]], .single (.int 1)), ([[98]], .single (.bytes [120]))]
 
